@@ -281,10 +281,19 @@ def gen_cases(tier, seed, big=False):
     return cases
 
 
+def corpus_cases():
+    """minimised past failures (corpus/C17/*.json), run first"""
+    import glob
+    out = []
+    for f in sorted(glob.glob(os.path.join(VERIF, "corpus", "C17", "*.json"))):
+        out.append(json.load(open(f))["case"])
+    return out
+
+
 def run(ctx):
     ctx.res.rule = ("number_of_bundles in {3,5,7} (thorough: 9 too), lines 5..8 (thorough: B=3 5..14, B=5 5..11, B=7 5..9, B=9 5..7 and single large cases (5,14),(5,13),(7,12),(9,10)), offsets default / random scalar / random_offsets / generic uniform vectors, "
                     "angle_disorder 0/0.02/0.1, penrose_tiling(n) under np.random.seed(s); every case is a distinct output lattice (hash of positions+edges) and non-trivial (>= 30 rhombi)")
-    evaluate(ctx, gen_cases(ctx.tier, ctx.seed), "S")
+    evaluate(ctx, corpus_cases() + gen_cases(ctx.tier, ctx.seed), "S")
 
 
 def search(ctx):
